@@ -65,7 +65,9 @@ static Verdict judge(bool victim_server, bool ecdhe, bool cauth, bool resumed, c
     for (size_t i = 0; i < tk.size(); i++) {
         const Tk &x = tk[i];
         if (!x.prot_ok) { v.viol_at = (int) i; v.why = "record protection does not match the cipher state";
-            v.sig = fmt(x.enc ? "completed-with-prematurely-encrypted-%s" : "completed-with-plaintext-%s", tok_name[x.t]); break; }
+            v.sig = fmt(x.enc ? "completed-with-prematurely-encrypted-%s" : "completed-with-plaintext-%s", tok_name[x.t]);
+            if (x.enc && x.t == T_CCS) v.sig = "completed-with-bad-ccs";   // ciphertext in a plaintext CCS record = a CCS body that is not the single byte 01
+            break; }
         if (x.t == T_WARN) { v.weak = true; continue; }
         if (x.t == T_HR && !victim_server && x.intact) { v.weak = true; continue; }
         if (k == e.size()) {   // handshake complete
@@ -183,32 +185,35 @@ static std::vector<Item> base_items(const Mode &m) {
 }
 static Item trailer_item(int n) { Item x; x.st = Step(pup::M_APPDATA); x.st.payload = bytes_of(fmt("PUPPET-APPDATA-%d;", n).c_str()); return x; }
 
-// ------------------------------------------------------------------ puppet self-test (runs once per process)
-static std::string selftest() {
-    for (int vs = 0; vs < 2; vs++) for (int sv = 0; sv < N_SV; sv++) for (int ca = 0; ca < 2; ca++) for (int ems = 0; ems < 4; ems++) for (int rs = 0; rs < 2; rs++) {
-        if (ems && (sv >= 3 || ca)) continue;   // EMS pairings on the three main TLS 1.2 suites
-        if (rs && (ca || (ems != 0 && ems != 3) || sv == 3)) continue;   // resumption: with and without EMS
-        Mode m{ vs == 1, sv, ca == 1, ems, rs == 1 };
-        std::vector<Item> it = base_items(m); it.push_back(trailer_item(0));
-        Bytes vsay = bytes_of("victim-says-hello");
-        Outcome o = run_trace(m, it, (size_t) -1, 7 + sv, &vsay);
-        std::string d = mode_str(m);
-        if (o.open_failed) return d + ": victim session could not be opened";
-        if (!o.ever_complete) return d + fmt(": honest script did not complete (victim rc %d, alert from victim %d, puppet: %s)", o.last_rc, o.alert_from_victim, o.puppet_err.c_str());
-        if (!o.puppet_fin_ok || !o.puppet_err.empty()) return d + ": puppet could not verify the victim's flight: " + o.puppet_err;
-        if (o.delivered != it.back().st.payload) return d + fmt(": puppet application data not delivered intact (%zu bytes)", o.delivered.size());
-        if (o.puppet_app_in != vsay) return d + fmt(": victim application data not received intact (%zu bytes)", o.puppet_app_in.size());
-        bool want_ems = (ems == 0 || ems == 2) && (vs == 1 || ems == 0);   // a MatrixSSL server always accepts an offered EMS; sessOpts -1 only stops a client from offering it
-        if (o.ems_active != want_ems) return d + fmt(": EMS negotiated=%d, expected %d", o.ems_active, want_ems);
-        if (o.dead) return d + ": victim reported an error on the honest script";
-        if (o.resumed != (rs == 1)) return d + fmt(": resumed=%d, expected %d", o.resumed, rs);
-    }
+// ------------------------------------------------------------------ puppet self-test
+// Nothing is judged in a mode before the UN-DEVIATED script has completed in exactly that mode in this process (handshake, Finished verified by the
+// puppet, application data both ways, EMS / resumption as expected).  Run lazily per mode so that a single replay costs one extra handshake.
+static std::string selftest_mode(const Mode &m) {
+    std::vector<Item> it = base_items(m); it.push_back(trailer_item(0));
+    Bytes vsay = bytes_of("victim-says-hello");
+    Outcome o = run_trace(m, it, (size_t) -1, 7 + m.sv, &vsay);
+    std::string d = mode_str(m);
+    if (o.open_failed) return d + ": victim session could not be opened";
+    if (!o.ever_complete) return d + fmt(": honest script did not complete (victim rc %d, alert from victim %d, puppet: %s)", o.last_rc, o.alert_from_victim, o.puppet_err.c_str());
+    if (!o.puppet_fin_ok || !o.puppet_err.empty()) return d + ": puppet could not verify the victim's flight: " + o.puppet_err;
+    if (o.delivered != it.back().st.payload) return d + fmt(": puppet application data not delivered intact (%zu bytes)", o.delivered.size());
+    if (o.puppet_app_in != vsay) return d + fmt(": victim application data not received intact (%zu bytes)", o.puppet_app_in.size());
+    bool want_ems = (m.ems == 0 || m.ems == 2) && (m.victim_server || m.ems == 0);   // a MatrixSSL server always accepts an offered EMS; sessOpts -1 only stops a client from offering it
+    if (o.ems_active != want_ems) return d + fmt(": EMS negotiated=%d, expected %d", o.ems_active, want_ems);
+    if (o.dead) return d + ": victim reported an error on the honest script";
+    if (o.resumed != m.resumed) return d + fmt(": resumed=%d, expected %d", o.resumed, m.resumed);
     return "";
+}
+static const std::string &selftest(const Mode &m) {
+    static std::map<int, std::string> done;
+    int key = (m.victim_server ? 1 : 0) | m.sv << 1 | (m.cauth ? 1 : 0) << 4 | m.ems << 5 | (m.resumed ? 1 : 0) << 7;
+    auto f = done.find(key); if (f != done.end()) return f->second;
+    return done[key] = selftest_mode(m);
 }
 
 // ------------------------------------------------------------------ deviation ops
-enum { O_DEL, O_DUP, O_SWAP, O_RETAG, O_SUBST, O_INJECT, O_FLIPFIN, O_PROT, O_MODE, O_N };
-static const char *op_name[] = { "delete", "duplicate", "swap", "retag", "substitute", "inject", "flip-finished", "wrong-protection", "trace-of-other-mode" };
+enum { O_DEL, O_DUP, O_SWAP, O_RETAG, O_SUBST, O_INJECT, O_FLIPFIN, O_PROT, O_MODE, O_CCSBODY, O_N };
+static const char *op_name[] = { "delete", "duplicate", "swap", "retag", "substitute", "inject", "flip-finished", "wrong-protection", "trace-of-other-mode", "ccs-body" };
 struct Op { int kind = -1, pos = 0, arg = 0; std::string text; };
 
 static int item_tok(const Item &x) { return x.st.type_override >= 0 ? tok_of_hs_type(x.st.type_override) : tok_of_msg(x.st.msg); }
@@ -239,7 +244,9 @@ static bool apply_op(Op &op, std::vector<Item> &it, const Mode &m) {
     case O_RETAG: {
         if (!in(n) || !is_hs_item(it[pos])) break; int tk = item_tok(it[pos]);
         if (tok_of_hs_type(op.arg) == tk && tk != T_OTHER) break;
-        op.text = fmt("retag@%d(%s->type %d)", pos, tok_short[tk], op.arg); it[pos].st.type_override = op.arg; return true;
+        op.text = fmt("retag@%d(%s->type %d)", pos, tok_short[tk], op.arg);
+        it[pos].st.type_override = (it[pos].st.msg < 0x100 && op.arg == it[pos].st.msg) ? -1 : op.arg;   // back to its own type: honest again
+        return true;
     }
     case O_SUBST: {
         if (!in(n) || op.arg < 0 || op.arg >= T_N) break; int tk = item_tok(it[pos]);
@@ -260,6 +267,13 @@ static bool apply_op(Op &op, std::vector<Item> &it, const Mode &m) {
         bool after_ccs = false; for (int i = 0; i < pos; i++) if (it[i].st.msg == pup::M_CCS) after_ccs = true;
         it[pos].st.prot = after_ccs ? pup::P_CLEAR : pup::P_ENCRYPTED;
         op.text = fmt("%s@%d(%s)", after_ccs ? "in-the-clear" : "encrypted-early", pos, tok_short[tk]); return true;
+    }
+    case O_CCSBODY: {   // the ChangeCipherSpec record does not hold exactly the one byte 01 (RFC 5246 7.1)
+        int f = -1; for (size_t i = 0; i < n; i++) if (it[i].st.msg == pup::M_CCS) f = (int) i;
+        if (f < 0) break;
+        static const std::vector<Bytes> bodies = { { 1, 1 }, { 1, 0 }, { 1, 2, 3, 4, 5, 6, 7, 8, 9, 10, 11, 12, 13, 14, 15, 16, 17, 18, 19, 20 }, { 2 }, { 0 }, { 0, 1 } };
+        op.pos = f; op.arg = (int) ((unsigned) op.arg % bodies.size()); it[f].st.payload = bodies[op.arg];
+        op.text = fmt("ccs-body@%d(%s)", f, hex(bodies[op.arg].data(), bodies[op.arg].size(), 4).c_str()); return true;
     }
     case O_MODE: {   // the complete legal trace of a neighbouring mode: other client-auth setting / other key exchange / abbreviated instead of full (or vice versa)
         Mode m2 = m;
@@ -283,6 +297,7 @@ static Op draw_op(Tape &t, const std::vector<Item> &it) {
     case O_INJECT: op.pos = (int) t.below(n + 1); op.arg = (int) t.below(T_N); break;
     case O_FLIPFIN: op.arg = (int) t.below(96); break;
     case O_MODE: op.arg = (int) t.below(3); break;
+    case O_CCSBODY: op.arg = (int) t.below(6); break;
     }
     return op;
 }
@@ -300,6 +315,7 @@ static std::vector<Op> all_singles(const Mode &m) {
     for (int b : FLIP_BITS) add(O_FLIPFIN, 0, b);
     for (int i = 0; i < n; i++) add(O_PROT, i, 0);
     for (int a = 0; a < 3; a++) add(O_MODE, 0, a);
+    for (int a = 0; a < 6; a++) add(O_CCSBODY, 0, a);
     return r;
 }
 // the modes of the bounded-exhaustive target
@@ -319,19 +335,14 @@ static std::vector<Tk> tokenize(const std::vector<Item> &it) {
         if (x.st.msg == pup::M_ALERT && !(x.st.payload.size() == 2 && x.st.payload[0] == 1 && x.st.payload[1] != 0)) k.t = T_OTHER;
         bool enc = x.st.prot == pup::P_ENCRYPTED || (x.st.prot == pup::P_STATE && w_enc);
         k.prot_ok = enc == w_enc; k.enc = enc;
-        k.intact = x.st.type_override < 0 && x.st.flip_bit < 0;
+        k.intact = x.st.type_override < 0 && x.st.flip_bit < 0 && !(x.st.msg == pup::M_CCS && !x.st.payload.empty() && x.st.payload != Bytes{ 1 });
         tk.push_back(k);
         if (x.st.msg == pup::M_CCS) w_enc = true;
     }
     return tk;
 }
 
-static std::string g_selftest; static bool g_selftest_done = false;
-
 static void prop(Tape &t, Ctx &c) {
-    if (!g_selftest_done) { g_selftest = selftest(); g_selftest_done = true; }
-    VF_CHECK(g_selftest.empty(), "harness-puppet-selftest", "the un-deviated puppet script does not interoperate with MatrixSSL: %s", g_selftest.c_str());
-
 #ifdef C06_ENUM
     // bounded-exhaustive: index -> (mode, single deviation), default framing, one trailing application record
     static std::vector<std::pair<Mode, std::vector<Op>>> table;
@@ -355,6 +366,9 @@ static void prop(Tape &t, Ctx &c) {
     int ntrail = t.chance(7, 8) ? 1 + (int) t.chance(1, 4) : 0;
     for (int i = 0; i < ntrail; i++) it.push_back(trailer_item(i));
 #endif
+
+    { const std::string &st = selftest(m);
+      VF_CHECK(st.empty(), "harness-puppet-selftest", "the un-deviated puppet script does not interoperate with MatrixSSL: %s", st.c_str()); }
 
     // record-level shape, chosen independently of the deviation
     unsigned vary = (unsigned) t.below(4);
@@ -412,7 +426,9 @@ static void prop(Tape &t, Ctx &c) {
         c.count("verdict:illegal");
         VF_CHECK(!o.ever_complete, sig.c_str(), "victim completed the handshake although the received trace is outside the legal language: token %d (%s): %s; %s",
                  v.viol_at, tok_name[tk[v.viol_at].t], v.why.c_str(), desc.c_str());
-        if (o.reached[v.viol_at]) {
+        bool garbage = !tk[v.viol_at].prot_ok && tk[v.viol_at].enc;   // ciphertext read as plaintext: random bytes that may look like the head of a long fragmented message the victim then waits for
+        if (o.reached[v.viol_at] && garbage) { c.count("ciphertext-before-ccs"); c.nontrivial(shape); }
+        else if (o.reached[v.viol_at]) {
             c.count("illegal-token-reached-live-victim"); c.count(std::string("illegal-at:") + tok_short[tk[v.viol_at].t]);
             c.nontrivial(shape);
             VF_CHECK(o.dead, fmt("illegal-message-not-fatal:%s", tok_name[tk[v.viol_at].t]).c_str(), "victim is still alive (rc %d, no alert) after token %d (%s): %s; %s",
